@@ -27,6 +27,8 @@ var absenceSentinels = []string{
 	"ErrRSLEntryNotFound", "ErrReferenceNotFound", "ErrAuthorizationNotFound", "ErrPolicyNotFound",
 	"ErrPullRequestApprovalAttestationNotFound", "ErrGitHubReviewIDNotFound", "ErrTreeDoesNotHavePath",
 	"ErrAttestationsNotFound", "ErrMetadataNotFound", "ErrNoHooksDefined", "ErrNoRemoteSpecified", "ErrEntryNotNumbered", "ErrNotInCache",
+	// standard library: end of input / absent file
+	"EOF", "ErrNotExist",
 }
 
 // returnsError reports whether the call's callee has a trailing error result.
